@@ -214,19 +214,23 @@ def r03_3(ctx) -> None:
     if sg is None or vf is None:
         raise AnalysisError("ECAlgModel.sign / verify vanished")
     # sign: encode_int(r, size) + encode_int(s, size) with size = key.curve_key_size
+    # EVERY value `sign` returns has that form (seed C03-s: a second return for the octet-aligned curves used a minimal-length encoder,
+    # so a signature whose r or s has a leading zero octet came out short - one good return next to it must not discharge the obligation)
     rets = [n for n in fn_nodes(sg) if isinstance(n, ast.Return) and n.value is not None]
-    oks = False
+    good, bad = [], []
     for r in rets:
         v = r.value
+        okr = False
         if isinstance(v, ast.BinOp) and isinstance(v.op, ast.Add) and all(isinstance(x, ast.Call) and norm(x.func) == "encode_int" and len(x.args) == 2 for x in (v.left, v.right)):
             w1 = _resolve_local(eng, sg, v.left.args[1])
             w2 = _resolve_local(eng, sg, v.right.args[1])
             a1, a2 = norm(v.left.args[0]), norm(v.right.args[0])
             if w1 == w2 and w1.endswith(".curve_key_size") and a1 != a2:
-                oks = True
-                wsign = w1
-    ctx.check(oks, "R03.3", sg, sg.node, f"{sg.short} :: R||S", "the ECDSA signature is not encode_int(r, curve_key_size) || encode_int(s, curve_key_size)", "R and S each ceil(bits/8) octets",
-              construct="EC sign R||S widths")
+                okr = True
+        (good if okr else bad).append(r)
+    ctx.check(bool(good) and not bad, "R03.3", sg, (bad[0] if bad else sg.node), f"{sg.short} :: R||S",
+              "the ECDSA signature is not encode_int(r, curve_key_size) || encode_int(s, curve_key_size)" + (f" on the return at line {bad[0].lineno}: `{norm(bad[0].value)[:120]}`" if bad else ""),
+              "R and S each ceil(bits/8) octets on every return of sign", construct="EC sign R||S widths")
     # DER <-> raw conversion
     dec = [s for s in eng.cg.calls_in(sg) if any(x.endswith("decode_dss_signature") for x in s.ext)]
     enc = [s for s in eng.cg.calls_in(vf) if any(x.endswith("encode_dss_signature") for x in s.ext)]
